@@ -9,11 +9,15 @@ Case kinds
   penman   one EDS x (properties, lnk, indent): to_triples, from_triples(to_triples); oracle goes through PENMAN text
   triples  arbitrary triples -> from_triples (error branches)
 """
+import gc
 import io
 import itertools
 import json
 import logging
+import os
 import re
+import shutil
+import tempfile
 
 from .common import paths, tables as T
 from .common.runner import Check, canon
@@ -363,6 +367,21 @@ CARG_ALPHA = ['"', "\\", "a", "b", " ", "(", ")", "{", "é", ":", "<", ">", "|",
 IDENTS = [None, None, None, None, "1", "abc", "", "10", "a-b", "x:y"]
 
 
+_ODD_ASCII = [False]
+_ALL_ASCII = [False]
+
+
+def _in(pool):
+    """the in-space pools; ASCII only for the graphs whose damaged text is fed to the model's parser"""
+    return [x for x in pool if x.isascii()] if _ALL_ASCII[0] else pool
+
+
+def _odd(pool):
+    """the out-of-space pools, restricted to ASCII for most graphs so that the model (ASCII case mapping) still
+    covers them; about a third of the out-of-space graphs draw from the non-ASCII entries as well"""
+    return [x for x in pool if x.isascii()] if _ODD_ASCII[0] else pool
+
+
 def gen_lnk(rng, odd=False):
     r = rng.random()
     if r < 0.3:
@@ -398,15 +417,15 @@ def gen_props(rng, odd):
     if r < 0.45:
         return []
     n = rng.choice([1, 1, 2, 2, 3, 4, 6])
-    keys = rng.sample(PROP_KEYS, min(n, len(PROP_KEYS)))
+    keys = rng.sample(_in(PROP_KEYS), min(n, len(_in(PROP_KEYS))))
     if odd and rng.random() < 0.5:
-        keys[rng.randrange(len(keys))] = rng.choice(ODD_PROP_KEYS)
+        keys[rng.randrange(len(keys))] = rng.choice(_odd(ODD_PROP_KEYS))
         keys = list(dict.fromkeys(keys))
     out = []
     for k in keys:
-        v = rng.choice(PROP_VALS)
+        v = rng.choice(_in(PROP_VALS))
         if odd and rng.random() < 0.2:
-            v = rng.choice(ODD_PROP_VALS)
+            v = rng.choice(_odd(ODD_PROP_VALS))
         out.append((k, v))
     return out
 
@@ -418,17 +437,19 @@ def gen_edges(rng, ids, odd, density):
     if r < density[0]:
         return []
     n = rng.choice(density[1])
-    roles = rng.sample(ROLES, min(n, len(ROLES)))
+    roles = rng.sample(_in(ROLES), min(n, len(_in(ROLES))))
     if odd and rng.random() < 0.4:
-        roles[rng.randrange(len(roles))] = rng.choice(ODD_ROLES)
+        roles[rng.randrange(len(roles))] = rng.choice(_odd(ODD_ROLES))
         roles = list(dict.fromkeys(roles))
     return [(role, rng.choice(ids)) for role in roles]
 
 
-def gen_eds(rng, odd=False, maxn=7):
+def gen_eds(rng, odd=False, maxn=7, ascii_only=False):
     """a structured random EDS (JSON form); `odd` admits material outside what the formats can express"""
     n = rng.choice([0, 1, 1, 2, 2, 2, 3, 3, 3, 4, 4, 5, 6, maxn])
-    pool = list(IDS)
+    _ODD_ASCII[0] = ascii_only or rng.random() < 0.65
+    _ALL_ASCII[0] = ascii_only
+    pool = list(_in(IDS))
     rng.shuffle(pool)
     ids = pool[:n]
     if odd and n and rng.random() < 0.25:
@@ -453,7 +474,7 @@ def gen_eds(rng, odd=False, maxn=7):
             edges = gen_edges(rng, ids, odd, (0.5, [1, 1, 2]))
         if odd and edges and rng.random() < 0.1:
             edges[0] = (edges[0][0], "zz9")     # target that is not a node
-        pred = rng.choice(PREDS_IN) if not odd else rng.choice(PREDS + UP_PREDS)
+        pred = rng.choice(_in(PREDS_IN)) if not odd else rng.choice(_odd(PREDS + UP_PREDS))
         typ = rng.choice(TYPES)
         if odd and rng.random() < 0.05:
             typ = ""
@@ -546,6 +567,75 @@ def expand(case):
     if k == "longgraph":
         return {"kind": "native", "eds": long_graph(case["n"], case["top"]), "opts": case["opts"]}
     return case
+
+
+MODS = {"native": edsnative, "json": edsjson, "penman": edspenman}
+
+
+def fmt_kw(fmt, indent):
+    kw = dict(properties=True, lnk=True, indent=indent)
+    if fmt == "native":
+        kw["show_status"] = True
+    return kw
+
+
+def long_text_docs(fmt, target, shift):
+    """a multi-graph document whose text is longer than `target` characters: a leading graph whose text length grows
+    by one character per unit of `shift` (the length of its constant), then two-node graphs whose lengths vary with
+    the index, so that graph boundaries fall at many different offsets around every multiple of 8192 characters"""
+    def filler(i):
+        return je("a", [jn("a", "p%d" % (i % 10), "e", [("ARG1", "b")], [("TENSE", "past")], "k" * ((i * 7) % 13),
+                           {"k": "c", "d": [i % 50, i % 50 + 3]}),
+                        jn("b", ["q", "named", "straße_n_1"][i % 3], "x", [], [], None if i % 4 else "Kim")])
+    lead = je("x0", [jn("x0", "lead", "x", [], [], "K" * shift)])
+    probe = [eds_of_j(filler(i)) for i in range(26)]
+    per = len(MODS[fmt].dumps(probe, **fmt_kw(fmt, None))) / 26.0
+    n = int(target / per) + 3
+    return [lead] + [filler(i) for i in range(n)]
+
+
+def churn_graphs(rng, k=12):
+    """k different graphs of the same shape and size (so that a freed graph's memory is likely reused)"""
+    n = rng.choice([1, 2, 2, 3, 4])
+    ids = ["x%d" % i for i in range(n)]
+    shape = [[(role, rng.choice(ids)) for role in rng.sample(["ARG1", "ARG2", "BV"], rng.choice([0, 1, 2]))]
+             for _ in range(n)]
+    out = []
+    for j in range(k):
+        nodes = []
+        for i in range(n):
+            nodes.append(jn(ids[i], rng.choice(PREDS_IN[:14]) + "_%d" % j, rng.choice(["x", "e", "i"]), shape[i],
+                            [("TENSE", rng.choice(["past", "pres", "fut"])), ("NUM", rng.choice(["sg", "pl"]))],
+                            "c%d_%d" % (j, rng.randrange(100)), {"k": "c", "d": [j, j + i + 1]}))
+        out.append(je(ids[rng.randrange(n)], nodes))
+    return out
+
+
+def dict_obs(d):
+    nodes = []
+    for nid, nd in d["nodes"].items():
+        nodes.append({"id": cps(nid), "label": cps(nd["label"]),
+                      "edges": [[cps(a), cps(b)] for a, b in nd["edges"].items()],
+                      "lnk": [nd["lnk"]["from"], nd["lnk"]["to"]] if "lnk" in nd else None,
+                      "type": cps(nd.get("type")),
+                      "props": ([[cps(a), cps(b)] for a, b in nd["properties"].items()]
+                                if "properties" in nd else None),
+                      "carg": cps(nd.get("carg"))})
+    return {"top": cps(d["top"]), "nodes": nodes}
+
+
+def long_text_cases(tier):
+    out = []
+    shifts16 = [1, 2, 3, 5, 8, 13, 21, 34, 40] if tier == "quick" else list(range(1, 41))
+    for fmt in ("json", "penman", "native"):
+        for j, sh in enumerate(shifts16):
+            out.append({"kind": "longtext", "fmt": fmt, "target": 16384, "shift": sh, "indent": None if j % 2 else 2})
+        for j, sh in enumerate([1, 17, 29]):
+            out.append({"kind": "longtext", "fmt": fmt, "target": 65536, "shift": sh, "indent": None if j % 2 == 0 else 2})
+        if tier != "quick":
+            for j, sh in enumerate([4, 23]):
+                out.append({"kind": "longtext", "fmt": fmt, "target": 131072, "shift": sh, "indent": None if j else 4})
+    return out
 
 
 def long_cases():
@@ -675,9 +765,23 @@ class C03(Check):
                 % ", ".join(T.lean_strlit(s) for s in sembase._COMMON_PROPERTIES),
                 "def edsUnspecific : String := %s" % T.lean_strlit(variable.UNSPECIFIC)]
 
+    tmpdir = None
+
+    def setup(self):
+        self.tmpdir = tempfile.mkdtemp(prefix="c03-", dir="/var/tmp")
+
+    def teardown(self):
+        if self.tmpdir:
+            shutil.rmtree(self.tmpdir, ignore_errors=True)
+            self.tmpdir = None
+
     # ---- cases
     def cases(self, rng, tier, n):
-        out = fixed_cases() + long_cases()
+        out = fixed_cases() + long_cases() + long_text_cases(tier)
+        crng = __import__("random").Random(20260929)
+        for _ in range(3):
+            out.append({"kind": "churn", "graphs": churn_graphs(crng), "opts": {"properties": True, "lnk": True,
+                                                                               "show_status": True, "indent": True}})
         small = enum_small(2 if tier == "quick" else 3)
         for g in small:
             for o in status_opts():
@@ -705,12 +809,17 @@ class C03(Check):
                 p, l, i = (rng.random() < 0.6, rng.random() < 0.6, rng.random() < 0.5)
                 yield {"kind": "penman", "eds": g, "properties": p, "lnk": l, "indent": i}
                 k += 1
-            elif r < 0.84:
+            elif r < 0.83:
                 docs = [g] + [gen_eds(rng, False, 4) for _ in range(rng.choice([0, 1, 2, 3]))]
                 yield {"kind": "docs", "docs": docs, "opts": rng.choice(opts), "fmt": rng.choice(["native", "native", "json",
                                                                                                   "penman"])}
                 k += 1
+            elif r < 0.85:
+                yield {"kind": "churn", "graphs": churn_graphs(rng), "opts": rng.choice(opts)}
+                k += 1
             elif r < 0.98:
+                if rng.random() < 0.7:
+                    g = gen_eds(rng, odd, ascii_only=True)
                 e = eds_of_j(g)
                 o = rng.choice(opts)
                 try:
@@ -812,6 +921,24 @@ class C03(Check):
         if k == "triples":
             tr = [(uncps(a), uncps(b), uncps(c)) for a, b, c in case["triples"]]
             return guarded(lambda: pen_obs(edspenman.from_triples(tr)))
+        if k == "longtext":
+            mod = MODS[case["fmt"]]
+            es = [eds_of_j(g) for g in long_text_docs(case["fmt"], case["target"], case["shift"])]
+            text = mod.dumps(es, **fmt_kw(case["fmt"], case["indent"]))
+            back = guarded(lambda: len(mod.loads(text)))
+            return {"graphs": len(es), "chars_over_target": len(text) > case["target"], "back": back}
+        if k == "churn":
+            out = []
+            o = case["opts"]
+            for g in case["graphs"]:
+                e = eds_of_j(g)
+                out.append({"text": cps(edsnative.encode(e, **opts_kw(o))),
+                            "dict": dict_obs(edsjson.to_dict(e, properties=o["properties"], lnk=o["lnk"])),
+                            "triples": [[cps(a), cps(b), cps(c)] for a, b, c in
+                                        edspenman.to_triples(e, properties=o["properties"], lnk=o["lnk"])]})
+                del e
+                gc.collect(0)
+            return out
         raise ValueError(k)
 
     # ---- model
@@ -836,7 +963,7 @@ class C03(Check):
                 toks = lex_tokens(text)
             except EDSSyntaxError:
                 return None     # the lexer itself rejects the text: outside the token-level model
-            if not all(ascii_cased_only(uncps(t)) for _, t in toks):
+            if not all(ascii_cased_only(uncps(t)) for name, t in toks if name == "SYMBOL"):
                 return None
             return {"op": "parse", "toks": toks, "api": case["api"]}
         if k == "json":
@@ -845,6 +972,10 @@ class C03(Check):
             if not case_modelled(eds_of_j(case["eds"]), penman=True):
                 return None
             return {"op": "penman", "eds": case["eds"], "properties": case["properties"], "lnk": case["lnk"]}
+        if k == "churn":
+            if not all(case_modelled(eds_of_j(g), penman=True) and targets_ok(eds_of_j(g)) for g in case["graphs"]):
+                return None
+            return {"op": "churn", "docs": case["graphs"], "opts": case["opts"]}
         if k == "triples":
             if not all(ascii_cased_only(uncps(b)) for _, b, _ in case["triples"]):
                 return None
@@ -887,7 +1018,95 @@ class C03(Check):
             self._oracle_json(case, fail)
         elif k == "penman":
             self._oracle_penman(case, fail)
+        elif k == "longtext":
+            self._oracle_longtext(case, fail)
+        elif k == "churn":
+            self._oracle_churn(case, fail)
         return fails
+
+    def _oracle_longtext(self, case, fail):
+        fmt = case["fmt"]
+        mod = MODS[fmt]
+        kw = fmt_kw(fmt, case["indent"])
+        es = [eds_of_j(g) for g in long_text_docs(fmt, case["target"], case["shift"])]
+        skw = dict(kw)
+        singles = [show(mod.decode(mod.encode(e, **skw))) for e in es]
+        text = mod.dumps(es, **kw)
+        if len(text) <= case["target"]:
+            fail("harness: long document shorter than its target", repr((len(text), case["target"])))
+
+        def check(how, f):
+            try:
+                ds = f()
+            except Exception as ex:   # noqa: BLE001
+                fail("%s: a long document cannot be read back (%s)" % (fmt, how), type(ex).__name__)
+                return
+            if len(ds) != len(es):
+                fail("%s: a long document does not give one graph per input graph (%s)" % (fmt, how),
+                     repr((len(es), len(ds), len(text))))
+                return
+            for i, d in enumerate(ds):
+                if show(d) != singles[i]:
+                    fail("%s: a graph read from a long document differs from its own round trip (%s)" % (fmt, how),
+                         repr((i, len(text))))
+                    return
+        check("loads", lambda: mod.loads(text))
+        check("load StringIO", lambda: mod.load(io.StringIO(text)))
+        path = os.path.join(self.tmpdir or tempfile.gettempdir(), "long.%s" % fmt)
+
+        def via_file():
+            with open(path, "w", encoding="utf-8") as fh:
+                fh.write(text)
+            return mod.load(path)
+
+        def via_dump():
+            mod.dump(es, path, **kw)
+            return mod.load(path)
+
+        def via_dump_handle():
+            with open(path, "w", encoding="utf-8") as fh:
+                mod.dump(es, fh, **kw)
+            with open(path, encoding="utf-8") as fh:
+                return mod.load(fh)
+        check("load file", via_file)
+        check("dump file / load file", via_dump)
+        check("dump handle / load handle", via_dump_handle)
+
+    def _oracle_churn(self, case, fail):
+        o = case["opts"]
+        graphs = case["graphs"]
+        if not all(self._in_scope(eds_of_j(g), o) and self._pen_scope(eds_of_j(g)) for g in graphs):
+            return
+        pk = dict(properties=o["properties"], lnk=o["lnk"])
+        calls = (("native", edsnative, opts_kw(o)), ("json", edsjson, dict(pk, indent=o["indent"])),
+                 ("penman", edspenman, dict(pk, indent=o["indent"])))
+        # references: every graph built and kept alive at the same time (distinct objects), encoded once
+        alive = [eds_of_j(g) for g in graphs]
+        ref = [{fmt: mod.encode(e, **kw) for fmt, mod, kw in calls} for e in alive]
+        # churn: one graph at a time, every reference dropped before the next, different, graph is built
+        got = []
+        for g in graphs:
+            e = eds_of_j(g)
+            got.append({fmt: mod.encode(e, **kw) for fmt, mod, kw in calls})
+            del e
+            gc.collect(0)
+        for k, (g, r, t) in enumerate(zip(graphs, ref, got)):
+            for fmt, mod, kw in calls:
+                if t[fmt] != r[fmt]:
+                    fail("%s: the text of a newly built graph depends on graphs encoded (and freed) before it" % fmt,
+                         repr((k, r[fmt], t[fmt])))
+                    continue
+                want = eds_of_j(g)
+                keep = reachable(want) if fmt == "penman" else {n.id for n in want.nodes}
+                try:
+                    d = mod.decode(t[fmt])
+                except Exception as ex:   # noqa: BLE001
+                    fail("%s: the codec cannot read its own output" % fmt, type(ex).__name__)
+                    continue
+                if (d.top, sorted((n.id, n.predicate, n.carg) for n in d.nodes)) != \
+                        (want.top, sorted((n.id, n.predicate, n.carg) for n in want.nodes if n.id in keep)):
+                    fail("%s: the text written for a graph is the text of another graph" % fmt, repr((k, t[fmt])))
+        del alive
 
     @staticmethod
     def _in_scope(e, o):
@@ -1254,6 +1473,26 @@ class C03(Check):
                             d = (i + 512) % 1024 - 512
                             if -4 <= d <= 4:
                                 inc("long:graph-start-at-chunk-boundary%+d" % d)
+            return
+        if k0 == "longtext":
+            fmt = case["fmt"]
+            mod = MODS[fmt]
+            kw = fmt_kw(fmt, case["indent"])
+            es = [eds_of_j(g) for g in long_text_docs(fmt, case["target"], case["shift"])]
+            text = mod.dumps(es, **kw)
+            inc("longtext:%s:chars>=%dK" % (fmt, 16 * (len(text) // 16384)))
+            if fmt != "json" or case["indent"] is None:
+                # exact graph boundaries: the document is the single texts joined by a fixed delimiter
+                pre, sep = (1, 2) if fmt == "json" else (0, 2 if (fmt == "penman" or case["indent"]) else 1)
+                pos = pre
+                for e in es:
+                    d = (pos + 4096) % 8192 - 4096
+                    if -20 <= d <= 20:
+                        inc("longtext:graph-boundary-at-8192k%+d" % d)
+                    pos += len(mod.encode(e, **kw)) + sep
+            return
+        if k0 == "churn":
+            inc("churn:nodes:%d" % len(case["graphs"][0]["nodes"]))
             return
         k = k0
         if k in ("native", "json", "penman"):
